@@ -197,7 +197,15 @@ func Harness_C14_ConstructorsAndBytes() {
 	for key, val := range p {
 		m[string(key)] = val
 	}
-	switch verifrt.Choose("malformed", 3) {
+	switch verifrt.Choose("malformed", 4) {
+	case 3: // the value carried under another member name (empty, former spellings, another action's member)
+		stray := []string{"", "value", "public_keys", "service_endpoints", "publicKey", "id", "Patches", "document "}[verifrt.Choose("stray-name", 8)]
+		for key, val := range m {
+			if key != "action" {
+				delete(m, key)
+				m[stray] = val
+			}
+		}
 	case 0:
 		delete(m, "action")
 	case 1:
